@@ -36,6 +36,19 @@ def observed_claims(row):
     return bad
 
 
+def gates_mismatch(row):
+    """the prover's assignment read through the hook vs the specification's (closing of half gates: right wire and output zero)"""
+    exp, got = row["program"].get("gates"), row.get("gates")
+    if exp is None or got is None or row["program"].get("vskip") or row["pres"] != "ok":
+        return []
+    def enc(x):
+        return x if row["curve"] in vlib.TOY_CURVES else int(x).to_bytes(32, "little").hex()
+    want = [[enc(v) for v in g] for g in exp]
+    if want != got:
+        return ["prover assignment %s differs from the specification's %s" % (got, exp)]
+    return []
+
+
 def multi_callback(prog):
     return sum(1 for cb in prog["p"].get("cbs", []) if cb) > 1
 
@@ -44,6 +57,8 @@ def report(chk, rows, what):
     for r in rows:
         chk.count_case(r["program"]["p"], nontrivial=len(r["program"]["p"]["ops"]) > 0)
         bad = observed_claims(r)
+        if not multi_callback(r["program"]):
+            bad += gates_mismatch(r)
         # disagreement with the handles the specification predicts: the property itself speaks about the two roles and about pairing;
         # with several non-empty callbacks the order in which callbacks run is a wire matter (C18), so the prediction is binding for
         # programs with at most one non-empty callback only
@@ -71,15 +86,16 @@ def run(chk):
     chk.sample({"behaviour": behs[len(behs) // 2]})
     curves = vlib.REAL_CURVES + ["toy31723"]
     for c in curves:
-        # ideal verdicts are meaningful on the 256-bit curves only; on the toy curve handles and counts are compared
-        bs = behs if c in vlib.REAL_CURVES else [dict(b, expect_v="", expect_p="") for b in behs]
+        # this property is about handles, gate counts and the closing of half gates - observed directly (returned values, the prover's
+        # assignment through the hook), not through verdicts: whether proofs verify is C01's and C02's business
+        bs = [dict(b, expect_v="", expect_p=b["expect_p"] if b["expect_p"] != "ok" else "") for b in behs]
         rows = vlib.replay(chk, c, bs, "mcb")
         report(chk, rows, "handles")
     chk.finish(
         rule="TLC enumerates every lock-step call sequence of at most %d calls over {commit, allocate(Some/None), allocate_multiplier, multiply, "
              "constrain, specify_randomized_constraints, phase switch, challenge_scalar} (invariants), and prints one behaviour per state of the "
              "depth-%d model; each behaviour is replayed through the real Prover and Verifier on %s, comparing every returned handle, error kind and "
-             "gate count call by call, and the verdict with the model's (probe constraints observe the closing of a pending gate). distinct = distinct programs with at least one call" % (depth_inv, depth_gen, ", ".join(curves)),
+             "gate count call by call, and the prover's final assignment of every gate (read through the hook) with the model's - a half gate left open at a phase end must read (a, 0, 0). distinct = distinct programs with at least one call" % (depth_inv, depth_gen, ", ".join(curves)),
         assumptions=["second-phase calls of a behaviour are distributed over the registered callbacks in every way (NextCb)",
                      "verdicts on the 256-bit curves are ideal (soundness error 2^-250 ignored); toy31723 programs use values 2,3 only, so no coincidences arise"],
         extra={"exhaustive": True})
